@@ -120,20 +120,33 @@ def split_contract():
     def hyp(c):
         return z3.And(M.match_axioms(P, D_of(c)), M.cnt_sp_def(P, D_of(c), z3.IntVal(0)))
 
+    # The result is either built by appends in a loop (read positionally, through the counting function CNT_SP) or by a
+    # comprehension `[f(x) for x in xs if p(x)]` (read structurally: same source length, same filter, same elements pointwise
+    # -- the list comprehension IS the specified filter-map then).
     def e_count(c):
-        n, _e = view(c)
         D = D_of(c)
+        t = M.comp_tag(c.st, c.result)
+        if t is not None:
+            _k, n_src, keep, _el = t
+            return z3.And(n_src == M.M_N(P, D), forall(M.M_N(P, D), lambda k: keep(k) == (z3.Length(M.piece(P, D, k)) > 0), "k!sc"))
+        n, _e = view(c)
         return n == M.CNT_SP(P, D, M.M_N(P, D))
 
     def e_items(c):
-        n, el = view(c)
         D = D_of(c)
+        t = M.comp_tag(c.st, c.result)
+        if t is not None:
+            _k, n_src, keep, el = t
+            return z3.And(n_src == M.M_N(P, D), forall(M.M_N(P, D), lambda k: z3.Implies(z3.Length(M.piece(P, D, k)) > 0, el(k).t == M.piece(P, D, k)), "k!sp"))
+        n, el = view(c)
         return forall(M.M_N(P, D), lambda k: z3.Implies(z3.Length(M.piece(P, D, k)) > 0, el(M.CNT_SP(P, D, k)).t == M.piece(P, D, k)), "k!sp",
                       pattern=lambda k: M.CNT_SP(P, D, k))
 
     def e_index(c):
-        n, el = view(c)
         D = D_of(c)
+        if M.comp_tag(c.st, c.result) is not None:
+            return z3.BoolVal(True)          # positions of a comprehension's result are in range and increasing by construction
+        n, el = view(c)
         return forall(M.M_N(P, D), lambda k: z3.Implies(z3.Length(M.piece(P, D, k)) > 0, z3.And(0 <= M.CNT_SP(P, D, k), M.CNT_SP(P, D, k) < n)), "k!sx",
                       pattern=lambda k: M.CNT_SP(P, D, k))
 
@@ -293,11 +306,23 @@ def peas_contract():
 
     def e_count(c):
         none, s = s_of(c)
+        t = M.comp_tag(c.st, c.result)
+        if t is not None:
+            _k, n_src, kp, _el = t
+            return z3.And(z3.Not(z3.Or(none, z3.Length(s) == 0)), n_src == M.GA_N(s), forall(M.GA_N(s), lambda k: kp(k) == keep(s, k), "k!pc"))
         n, _el = view(c)
         return n == z3.If(z3.Or(none, z3.Length(s) == 0), 0, M.CNT_GA(s, M.GA_N(s)))
 
     def e_items(c):
         none, s = s_of(c)
+        t = M.comp_tag(c.st, c.result)
+        if t is not None:
+            _k, n_src, _kp, el_ = t
+
+            def body_t(k):
+                nm, ad = addr_fields(c.st, el_(k))
+                return z3.Implies(keep(s, k), z3.And(nm == M.dhv_term(z3.BoolVal(False), M.GA_NAME(s, k)), ad == M.GA_ADDR(s, k)))
+            return z3.And(n_src == M.GA_N(s), forall(M.GA_N(s), body_t, "k!pa"))
         n, el = view(c)
         def body(k):
             nm, ad = addr_fields(c.st, el(M.CNT_GA(s, k)))
